@@ -1,7 +1,7 @@
 """C02 — opening a plotfile exposes exactly the metadata its headers state.
 Monitor: post-condition on PlotfileCooker.__init__ (attributes == independent parse == model)
 evaluated for every opening configuration of every generated plotfile."""
-import os, random, shutil
+import json, os, random, shutil
 import numpy as np
 from .. import common, gen, refparse, workload, pools, contracts
 
@@ -39,6 +39,19 @@ def cases(tier, seed):
         g["time"] = rng.choice([0.0, 1.25e-3, -2.5, 7.0, 1e300, 4.9e-324, 0.1 + 0.2])
         if i % 5 == 0:
             g["origin"] = [rng.choice([-3.25, 1e-3, 100.0]) for _ in range(g["ndims"])]
+    # one level step refined by 4 (Header ratio lines `4`, `2 4`, `4 2`): cell sizes and grid sizes are what the
+    # Header prints, not what a ratio of 2 would give
+    r4 = []
+    for i, c in enumerate(cs):
+        if len(r4) >= (12 if tier == "quick" else 600):
+            break
+        g = c["gen"]
+        if g.get("nlevels", 1) in (2, 3) and g.get("bf", 8) <= 4 and not c.get("scale") and not c.get("deepen"):
+            c2 = json.loads(json.dumps(c))
+            c2["gen"]["seed"] = g["seed"] + 40004
+            c2["ratio4"] = "coarse" if (len(r4) % 3 == 2 and g["nlevels"] == 3) else True
+            r4.append(c2)
+    cs += r4
     if tier == "thorough":
         for a in ("example_plt_2d", "example_plt_3d", "plt1_Y", "plt2_F", "plt_eb_3d"):
             cs.append({"asset": a})
@@ -100,6 +113,9 @@ def run_case(case, work, rec):
         nontriv = (m.nlevels >= 2 or any(v != 0 for v in m.geo_low) or len(set(m.dx[0])) > 1
                    or len(set(m.names)) < len(m.names))
         rec.sample({"plotfile": gen.describe(m), "fmt": case["fmt"], "time": m.time})
+        if getattr(m, "ratios", None):
+            rec.count("plotfiles_with_a_ratio_of_4")
+            rec.seen("ratio_lines", " ".join(str(v) for v in m.ratios))
     finest = r["finest"]
     # a copy holding only the global Header (header_only must not need anything else)
     honly = os.path.join(work, "only_header")
